@@ -111,7 +111,11 @@ def r2(ctx: Ctx) -> None:
         if leaf == "compute_market_index":
             # answers taken from a table kept on the market (a memo of the index per time): whether an entry is still the
             # weighted average of what the components show now needs every writer of the component prices -- refused (seed C20t)
-            memo = [strip_ver(p.exit[1]) for p in qpaths if p.exit[0] == "return" and any(x[0] == "sub" and strip_ver(x[1])[0] == "attr" and strip_ver(strip_ver(x[1])[1]) == ("sym", "self") for x in subterms(strip_ver(p.exit[1])))]
+            def _kept(t: Term) -> bool:
+                # the answer mentions a data attribute of the market other than its clock (self._cache[...], self._cache.get(...)[i])
+                return any(x[0] == "attr" and strip_ver(x[1]) == ("sym", "self") and x[2] not in ("time", leaf) and ctx.program.lookup_method("IndexMarket", x[2]) is None for x in subterms(t))
+
+            memo = [strip_ver(p.exit[1]) for p in qpaths if p.exit[0] == "return" and _kept(strip_ver(p.exit[1]))]
             if memo:
                 ctx.unrec(f, f.node, f"{q} passes its time argument through", "the getter answers from a table kept on the index market instead of computing: whether the stored value is still current is not decided", short(memo[0]))
                 continue
